@@ -438,6 +438,17 @@ func d18NewEnv(c *d18Case, opts d18Opts) (*d18Env, error) {
 
 func (e *d18Env) close() {
 	for _, p := range e.allPeers() {
+		if p.opened && !p.dead && !e.opts.NoGuard && e.wouldRecurse(p) {
+			// the run was abandoned in front of this close (it is executed in a child process instead);
+			// tearing the connection down must not walk into the recursion either: forget its wills
+			if bp, ok := p.proto.(*BinaryServerProtocol); ok {
+				bp.glock.Lock()
+				bp.willCommands = nil
+				bp.glock.Unlock()
+			}
+		}
+	}
+	for _, p := range e.allPeers() {
 		if p.opened && !p.dead {
 			p.conn.finish()
 			_ = p.conn.Close()
